@@ -842,7 +842,7 @@ fn main() {
             // sim survey <Scenario> <n>: signatures of all violations over n seeds
             let scn = args.get(2).and_then(|s| Scenario::parse(s)).unwrap_or(Scenario::Program(Profile::General));
             let n: u64 = args.get(3).and_then(|s| s.parse().ok()).unwrap_or(1000);
-            let mut sigs: BTreeMap<String, (u64, u64, String)> = BTreeMap::new();
+            let mut sigs: BTreeMap<String, (u64, u64, String, u64)> = BTreeMap::new();
             let mut herr = 0;
             for i in 0..n {
                 let s = mix(seed, i);
@@ -854,11 +854,11 @@ fn main() {
                     }
                 }
                 for v in r.violations {
-                    sigs.entry(v.sig).and_modify(|e| e.0 += 1).or_insert((1, s, v.detail));
+                    sigs.entry(v.sig).and_modify(|e| e.0 += 1).or_insert((1, s, v.detail, i));
                 }
             }
-            for (k, (c, s, d)) in &sigs {
-                println!("{c:>6} {k}  [seed {s}] {d}");
+            for (k, (c, s, d, i)) in &sigs {
+                println!("{c:>6} {k}  [seed {s} case {i}] {d}");
             }
             println!("{} signatures over {n} runs, {herr} harness errors", sigs.len());
             0
